@@ -1,5 +1,6 @@
 //! Property-based / exhaustive-generator verification harness for pc-keyboard (see /verif/DESIGN.md).
 pub mod checks;
+pub mod explore;
 pub mod fuzz_api;
 pub mod gen;
 pub mod graph;
